@@ -68,6 +68,9 @@ def main():
                 print(f"{name:24s} alarms={alarms}  " + "; ".join(f"{c}: rc={v.get('rc')}" for c, v in res.items() if isinstance(v, dict)))
                 mp = os.path.join(bdir, name.split(":")[1], "meta.json")
                 meta = json.load(open(mp))
+                if "apply_failed" in res:
+                    print(f"   {name}: PATCH DOES NOT APPLY to the current tree: {res['apply_failed'][-200:]}")
+                    continue
                 meta["checks_run"] = res
                 meta["alarms"] = alarms
                 json.dump(meta, open(mp, "w"), indent=1)
@@ -90,6 +93,9 @@ def main():
         for name, res in ex.map(one, items):
             det = [c for c, v in res.items() if isinstance(v, dict) and v.get("rc") == 1]
             print(f"{name:32s} detected_by={det}  " + "; ".join(f"{c}: rc={v.get('rc')}" for c, v in res.items() if isinstance(v, dict) and "rc" in v))
+            if "apply_failed" in res:
+                print(f"   {name}: PATCH DOES NOT APPLY to the current tree")
+                continue
             if not name.startswith("mutant:"):
                 mp = os.path.join(sdir, name, "meta.json")
                 meta = json.load(open(mp))
